@@ -251,6 +251,10 @@ class ProgGen(object):
     def retract(self):
         if self.f.get("fw", False):
             p = self.f.get("fwparam", "")
+            if self.f.get("fwparam_mix"):
+                # every cycle with its own parameter text (swap retraction or not); the G11 of a cycle repeats its G10's
+                p = self.r.choice(["", "", "S1", "S0"])
+                self._fw_cycle_param = p
             self.emit("G10" + ((("" if self.f.get("fwnospace") else " ") + p) if p else ""))
             self.fwret = True
         else:
@@ -270,6 +274,8 @@ class ProgGen(object):
             return
         if self.fwret:
             p = self.f.get("fwparam", "")
+            if self.f.get("fwparam_mix"):
+                p = getattr(self, "_fw_cycle_param", "")
             self.emit("G11" + ((("" if self.f.get("fwnospace") else " ") + p) if p else ""))
             self.fwret = False
         else:
@@ -309,6 +315,8 @@ class ProgGen(object):
             return self.atcmd()
         if f.get("boost") and r.random() < f["boost"]:
             k = r.choice([0.955, 0.965])     # G28 mid-program / G92 X/Y/Z
+        if f.get("boost_add") and r.random() < f["boost_add"]:
+            k = 0.91                         # region added / deleted through the API
         if f.get("p_relswitch") and r.random() < f["p_relswitch"]:
             k = 0.67                         # G90 <-> G91
         if f.get("p_retmove") and not self.is_retracted() and r.random() < f["p_retmove"]:
@@ -379,7 +387,14 @@ class ProgGen(object):
         elif k < 0.90 and f.get("at", False):
             self.atcmd()
         elif k < 0.92 and f.get("addregion", False) and self.nreg < 8:
-            self.addregion()
+            if f.get("delregion") and self.regs and r.random() < 0.4:
+                # a region is deleted through the API (shrinking allowed), possibly the one the tool is in
+                victim = self.regs[r.randrange(len(self.regs))]
+                self.regs = [q for q in self.regs if q is not victim]
+                self.steps.append(["api_delete", victim[-1]])
+                self.tags.add("region-deleted")
+            else:
+                self.addregion()
         elif k < 0.94:
             self.emit("G1 F%s" % fmt(r.choice([600, 1200, 1800, 3000]) / self.unit, 2))
         elif k < 0.95 and f.get("retmove", False) and not self.is_retracted():
